@@ -35,7 +35,10 @@ func main() {
 type harnessFile struct {
 	path   string
 	pkgDir string
+	aux    bool
 }
+
+var reAuxDirective = regexp.MustCompile(`(?m)^//verif:aux\s+(\S+)`)
 
 var rePkgDirective = regexp.MustCompile(`(?m)^//verif:package\s+(\S+)`)
 
@@ -53,6 +56,10 @@ func findHarnessFiles(dir string) ([]harnessFile, error) {
 		b, err := os.ReadFile(p)
 		if err != nil {
 			return nil, err
+		}
+		if ma := reAuxDirective.FindSubmatch(b); ma != nil {
+			out = append(out, harnessFile{path: p, pkgDir: string(ma[1]), aux: true})
+			continue
 		}
 		m := rePkgDirective.FindSubmatch(b)
 		if m == nil {
@@ -158,7 +165,12 @@ func runCheck(o *checkOpts) *CheckReport {
 	}
 	byPkg := map[string][]string{}
 	var shared []string
+	var aux []AuxFile
 	for _, f := range files {
+		if f.aux {
+			aux = append(aux, AuxFile{Path: f.path, PkgDir: f.pkgDir})
+			continue
+		}
 		if f.pkgDir == "*" {
 			shared = append(shared, f.path)
 			continue
@@ -177,7 +189,7 @@ func runCheck(o *checkOpts) *CheckReport {
 	var wg sync.WaitGroup
 	var mu sync.Mutex
 	for _, dir := range sortedKeys(byPkg) {
-		g := &groupRun{spec: LoadSpec{RepoDir: o.repo, PkgDir: dir, Files: byPkg[dir]}}
+		g := &groupRun{spec: LoadSpec{RepoDir: o.repo, PkgDir: dir, Files: byPkg[dir], Aux: aux}}
 		rep.Groups = append(rep.Groups, g)
 		wg.Add(1)
 		go func(g *groupRun) {
